@@ -172,6 +172,46 @@ func (c *Chain) oracleAbs(users []string) oracleState {
 	return st
 }
 
+var oraclePg *pager
+
+func feedJ(f oracletypes.Feed) map[string]interface{} {
+	return map[string]interface{}{"owner": f.Owner, "data": f.Data, "lastUpdate": f.LastUpdate.UnixNano(), "name": f.Name}
+}
+
+func oracleQueryStep(c *Chain, pg *pager, names []string) (map[string]interface{}, interface{}, string) {
+	k := c.A.OracleKeeper
+	w := sdk.WrapSDKContext(c.Ctx())
+	r := pg.r
+	if r.Intn(2) == 0 {
+		name := names[r.Intn(len(names))]
+		if r.Intn(6) == 0 {
+			name += "x"
+		}
+		q := map[string]interface{}{"feed": map[string]interface{}{"name": name}}
+		return q, safely(func() (interface{}, error) {
+			res, err := k.Feed(w, &oracletypes.QueryFeed{Name: name})
+			if err != nil {
+				return nil, err
+			}
+			return map[string]interface{}{"feed": map[string]interface{}{"f": feedJ(res.Feed)}}, nil
+		}), "feed"
+	}
+	req, pj := pg.page("allFeeds", c.rawKeys(oracletypes.StoreKey, oracletypes.FeedKeyPrefix))
+	q := map[string]interface{}{"allFeeds": map[string]interface{}{"page": pageOrDefault(pj)}}
+	return q, safely(func() (interface{}, error) {
+		res, err := k.AllFeeds(w, &oracletypes.QueryAllFeeds{Pagination: req})
+		if err != nil {
+			return nil, err
+		}
+		items := []interface{}{}
+		for _, f := range res.Feed {
+			items = append(items, feedJ(f))
+		}
+		nk, tot := pg.note("allFeeds", res.Pagination)
+		return listed("feeds", items, nk, tot), nil
+	}), "allFeeds"
+}
+
 func runMsgs(seed int64, histories, steps int, out *Emitter) {
 	for hi := 0; hi < histories; hi++ {
 		r := rand.New(rand.NewSource(seed*1000003 + int64(hi)))
@@ -272,6 +312,14 @@ func runMsgs(seed int64, histories, steps int, out *Emitter) {
 			post := c.oracleAbs(users)
 			out.Emit(map[string]interface{}{"mod": "oracle", "hist": hi, "i": i, "h": c.H, "now": c.T.UnixNano(), "pre": pre, "op": op, "ok": res.OK, "err": res.Err, "post": post})
 			out.Count("oracle."+opKind(op), res.OK)
+			if queriesOn && r.Intn(3) == 0 { // what the feed queries answer on this state
+				if oraclePg == nil {
+					oraclePg = newPager(rand.New(rand.NewSource(seed + 53)))
+				}
+				q, resp, kind := oracleQueryStep(c, oraclePg, names)
+				out.Emit(map[string]interface{}{"mod": "query", "sub": "oracle", "hist": hi, "i": i, "h": c.H, "state": post, "q": q, "resp": resp})
+				out.Count("query.oracle."+kind, resp != "err")
+			}
 		}
 		// (c) the wasm guard: a contract may post storage files only in its own name
 		for i := 0; i < 12; i++ {
